@@ -85,7 +85,8 @@ def unit(args: dict) -> dict:
                                               with_batch=args.get("with_batch", False),
                                               with_burst=args.get("with_burst", False),
                                               with_faults=args.get("with_faults", False),
-                                              fault_pairs=args.get("fault_pairs", False))
+                                              fault_pairs=args.get("fault_pairs", False),
+                                              with_lifecycle=args.get("with_lifecycle", False))
             if res.distinct_states >= args.get("max_states", 10 ** 8):
                 out["exhaustive"] = False
             out["states"] = res.distinct_states
